@@ -188,6 +188,7 @@ func faultByName(n string) (fault, bool) {
 
 type fstream struct {
 	server bool
+	start  func() // client side: hands the server end to the handler (once), see fhost.NewStream
 	in     *pipeHalf // we read from it
 	out    *pipeHalf // we write to it
 	ex     *exchange
@@ -197,9 +198,17 @@ type fstream struct {
 
 var _ network.Stream = (*fstream)(nil)
 
-func (s *fstream) Read(b []byte) (int, error) { return s.in.read(b) }
+func (s *fstream) Read(b []byte) (int, error) {
+	if s.start != nil {
+		s.start()
+	}
+	return s.in.read(b)
+}
 
 func (s *fstream) Write(b []byte) (int, error) {
+	if s.start != nil {
+		defer s.start()
+	}
 	if s.server {
 		s.ex.mu.Lock()
 		s.ex.writes++
@@ -232,6 +241,9 @@ func (s *fstream) Write(b []byte) (int, error) {
 }
 
 func (s *fstream) CloseWrite() error {
+	if s.start != nil {
+		defer s.start()
+	}
 	if s.server {
 		s.ex.mu.Lock()
 		s.ex.closeWrite++
@@ -261,6 +273,9 @@ func (s *fstream) CloseRead() error {
 }
 
 func (s *fstream) Close() error {
+	if s.start != nil {
+		defer s.start()
+	}
 	if s.server {
 		s.ex.mu.Lock()
 		s.ex.closed++
@@ -492,17 +507,25 @@ func (h *fhost) NewStream(_ context.Context, _ peer.ID, pids ...protocol.ID) (ne
 	h.last = ex
 	h.cur = ex
 	h.mu.Unlock()
-	go func() {
-		defer close(ex.done)
-		defer func() {
-			if r := recover(); r != nil {
-				ex.mu.Lock()
-				ex.escaped = fmt.Sprintf("%v", r)
-				ex.mu.Unlock()
-			}
-		}()
-		fn(srv)
-	}()
+	// As with libp2p's lazy protocol negotiation the handler gets the stream only once the
+	// opener has used it; starting it after the opener's first write makes every exchange
+	// deterministic (the handler never observes "nothing written yet").
+	var once sync.Once
+	cli.start = func() {
+		once.Do(func() {
+			go func() {
+				defer close(ex.done)
+				defer func() {
+					if r := recover(); r != nil {
+						ex.mu.Lock()
+						ex.escaped = fmt.Sprintf("%v", r)
+						ex.mu.Unlock()
+					}
+				}()
+				fn(srv)
+			}()
+		})
+	}
 	return cli, nil
 }
 
